@@ -7,7 +7,6 @@ import (
 	"os"
 	"os/exec"
 	"path/filepath"
-	"sort"
 	"strings"
 	"time"
 
@@ -15,15 +14,20 @@ import (
 )
 
 type replayDoc struct {
-	Property string      `json:"property"`
-	Harness  string      `json:"harness"`
-	Kind     string      `json:"kind"`
-	Message  string      `json:"message"`
-	Vector   []ReplayVal `json:"vector"`
-	Trace    []string    `json:"trace,omitempty"`
-	Confirm  string      `json:"confirmed_by,omitempty"`
-	Native   string      `json:"native_output,omitempty"`
-	Mutation string      `json:"overlay_mutation,omitempty"`
+	Property    string            `json:"property"`
+	Harness     string            `json:"harness"`
+	Kind        string            `json:"kind"`
+	Message     string            `json:"message"`
+	Vector      []ReplayVal       `json:"vector"`
+	Trace       []string          `json:"trace,omitempty"`
+	Confirm     string            `json:"confirmed_by,omitempty"`
+	Native      string            `json:"native_output,omitempty"`
+	Mutation    string            `json:"overlay_mutation,omitempty"`
+	NoNativeWhy string            `json:"native_replay_not_applicable,omitempty"`
+	Attempts    int               `json:"native_attempts,omitempty"`  // >1: the path runs a select with several ready cases; Go picks at random, so the native replay is repeated until it takes the failing branch
+	Thorough    bool              `json:"thorough"`                   // tier of the run (vpBound/vpThorough follow it natively)
+	Enable      []string          `json:"enable,omitempty"`           // native overrides switched on
+	Stubs       map[string]string `json:"native_overrides,omitempty"` // /repo function -> Go stub (from //vp:override)
 }
 
 // confirm replays a solver counterexample against the real code before it is reported:
@@ -35,7 +39,17 @@ func confirm(prog *ssa.Program, pkg *ssa.Package, c harnessCfg, v *Violation, fi
 		out.Result, out.Detail = "error", "solver produced no model for the failing path"
 		return out
 	}
-	doc := replayDoc{Property: prop, Harness: c.Name, Kind: v.Kind, Message: v.Msg, Vector: v.Vector, Trace: v.Trace}
+	mode, why, enable := witnessMode(c)
+	doc := replayDoc{Property: prop, Harness: c.Name, Kind: v.Kind, Message: v.Msg, Vector: v.Vector, Trace: v.Trace, Thorough: thorough, Mutation: mutationSpec}
+	if v.RandomSelect {
+		doc.Attempts = 200
+	}
+	if mode == "native" {
+		doc.Enable, doc.Stubs = enable, map[string]string{}
+		for _, k := range enable {
+			doc.Stubs[k] = c.Overrides[k]
+		}
+	}
 	os.MkdirAll(filepath.Dir(file), 0o755)
 	save := func() {
 		b, _ := json.MarshalIndent(doc, "", " ")
@@ -43,7 +57,7 @@ func confirm(prog *ssa.Program, pkg *ssa.Package, c harnessCfg, v *Violation, fi
 	}
 	save()
 	// (1) concrete re-execution
-	r := runHarness(prog, pkg, c, false, v.Vector)
+	r := runHarness(prog, pkg, c, thorough, v.Vector)
 	hit := false
 	for _, w := range r.Violations {
 		if w.Msg == v.Msg {
@@ -57,13 +71,18 @@ func confirm(prog *ssa.Program, pkg *ssa.Package, c harnessCfg, v *Violation, fi
 	}
 	doc.Confirm = "ssa-concrete"
 	save()
-	if c.NoNative || noNative {
+	if mode != "native" || noNative {
 		out.Result = "confirmed"
+		if mode != "native" {
+			out.Detail = "native replay not applicable: " + why
+			doc.NoNativeWhy = why
+			save()
+		}
 		return out
 	}
 	// (2) native
 	out.Kind = "native"
-	res, log, err := nativeReplay(c.Name, file, overlay, mutated)
+	res, log, err := nativeReplay(c.Name, file, overlay, doc.Stubs)
 	doc.Native = res
 	if err != nil {
 		out.Result, out.Detail = "error", err.Error()+": "+tail(log, 600)
@@ -90,50 +109,16 @@ func tail(s string, n int) string {
 
 // nativeReplay runs harness `name` under `go test` on /repo's working tree with the harness files
 // (and the optional overlay mutation) injected by -overlay, feeding it the replay vector.
-func nativeReplay(name, replayFile string, overlay, mutated map[string][]byte) (string, string, error) {
+func nativeReplay(name, replayFile string, overlay map[string][]byte, stubs map[string]string) (string, string, error) {
 	scratch, err := os.MkdirTemp("", "vpreplay")
 	if err != nil {
 		return "", "", err
 	}
 	defer os.RemoveAll(scratch)
-	repl := map[string]string{}
-	i := 0
-	var names []string
-	for virt := range overlay {
-		names = append(names, virt)
+	ovFile, err := writeNativeOverlay(scratch, overlay, stubs)
+	if err != nil {
+		return "", "", err
 	}
-	sort.Strings(names)
-	var harnessNames []string
-	for _, virt := range names {
-		i++
-		real := filepath.Join(scratch, fmt.Sprintf("f%d.go", i))
-		if err := os.WriteFile(real, overlay[virt], 0o644); err != nil {
-			return "", "", err
-		}
-		repl[virt] = real
-		if strings.Contains(virt, "zz_verif_") {
-			for _, l := range strings.Split(string(overlay[virt]), "\n") {
-				if strings.HasPrefix(l, "func H_") {
-					n := strings.TrimPrefix(l, "func ")
-					if j := strings.Index(n, "("); j > 0 {
-						harnessNames = append(harnessNames, n[:j])
-					}
-				}
-			}
-		}
-	}
-	var tb bytes.Buffer
-	tb.WriteString("package bloomsearch\n\nimport (\n\t\"fmt\"\n\t\"os\"\n\t\"testing\"\n)\n\nvar vpHarnessTable = map[string]func(){\n")
-	for _, h := range harnessNames {
-		fmt.Fprintf(&tb, "\t%q: %s,\n", h, h)
-	}
-	tb.WriteString("}\n\nfunc TestVerifReplay(t *testing.T) {\n\th := vpHarnessTable[os.Getenv(\"VERIF_HARNESS\")]\n\tif h == nil {\n\t\tfmt.Println(\"VPREPLAY: error: unknown harness\")\n\t\treturn\n\t}\n\tfmt.Println(\"VPREPLAY:\", vpRunReplay(os.Getenv(\"VERIF_REPLAY\"), h))\n}\n")
-	testReal := filepath.Join(scratch, "replay_test.go")
-	os.WriteFile(testReal, tb.Bytes(), 0o644)
-	repl[filepath.Join(repoDir, "zz_verif_replay_test.go")] = testReal
-	oj, _ := json.Marshal(map[string]interface{}{"Replace": repl})
-	ovFile := filepath.Join(scratch, "overlay.json")
-	os.WriteFile(ovFile, oj, 0o644)
 
 	cmd := exec.Command("go", "test", "-tags", "verif", "-vet=off", "-v", "-count=1", "-run", "^TestVerifReplay$", "-overlay", ovFile, "-timeout", "120s", ".")
 	cmd.Dir = repoDir
@@ -177,12 +162,13 @@ func replayStored(file string) int {
 		fmt.Println(err)
 		return 2
 	}
-	if strings.HasPrefix(doc.Harness, "HS_") {
+	if strings.HasPrefix(doc.Harness, "HS_") || doc.NoNativeWhy != "" {
 		fmt.Printf("replay %s: harness %s is confirmed by concrete SSA re-execution only; re-run `./check %s quick`\n", file, doc.Harness, doc.Property)
 		return 0
 	}
 	abs, _ := filepath.Abs(file)
-	res, log, err := nativeReplay(doc.Harness, abs, overlay, mutated)
+	_ = mutated
+	res, log, err := nativeReplay(doc.Harness, abs, overlay, doc.Stubs)
 	if err != nil {
 		fmt.Println("replay error:", err, tail(log, 800))
 		return 2
